@@ -310,7 +310,116 @@ func c15R1(h H) {
 	}
 }
 
+// c15R2: decided as a table of MakeServers (E10).  c15R2Patterns, the guard formulation, is kept for reference.
 func c15R2(h H) {
+	r := h.r
+	r.Rule("R2", "plain-HTTP sites lose TLS, as a decision table (E10): httpContext.MakeServers, evaluated for one site with TLS enabled or not, port {80, 443, 8080, none} and scheme {http, https, none} (grouping and server construction being oracles), leaves TLS enabled exactly when it was enabled and the site is neither on the HTTP port nor declared with http://; a TLS site without port that is not manual or self-signed gets the HTTPS port", 1)
+	fn := h.fn("R2", hs, "(*httpContext).MakeServers")
+	if fn == nil {
+		return
+	}
+	ctxT := fn.Params[0].Type().(*types.Pointer).Elem()
+	var siteT, tlsT, mgrT types.Type
+	if st, ok := underlying(ctxT).(*types.Struct); ok {
+		for i := 0; i < st.NumFields(); i++ {
+			if st.Field(i).Name() == "siteConfigs" {
+				if sl, ok := underlying(st.Field(i).Type()).(*types.Slice); ok {
+					if p, ok := sl.Elem().(*types.Pointer); ok {
+						siteT = p.Elem()
+					}
+				}
+			}
+		}
+	}
+	if siteT != nil {
+		if st, ok := underlying(siteT).(*types.Struct); ok {
+			for i := 0; i < st.NumFields(); i++ {
+				if p, ok := st.Field(i).Type().(*types.Pointer); ok && strings.HasSuffix(p.Elem().String(), "caskettls.Config") {
+					tlsT = p.Elem()
+				}
+			}
+		}
+	}
+	if tlsT != nil {
+		if st, ok := underlying(tlsT).(*types.Struct); ok {
+			for i := 0; i < st.NumFields(); i++ {
+				if st.Field(i).Name() == "Manager" {
+					if p, ok := st.Field(i).Type().(*types.Pointer); ok {
+						mgrT = p.Elem()
+					}
+				}
+			}
+		}
+	}
+	if siteT == nil || tlsT == nil {
+		r.Unresolve("R2", "httpContext.siteConfigs / SiteConfig.TLS not found by type")
+		return
+	}
+	bad, n := "", 0
+	for _, enabled := range []bool{true, false} {
+		for _, port := range []string{"80", "443", "8080", ""} {
+			for _, scheme := range []string{"http", "https", ""} {
+				n++
+				mgr := &aobj{name: "certmagic config", typ: types.Typ[types.Int], f: map[string]aval{"OnDemand": anil{}}}
+				if mgrT != nil {
+					mgr.typ = mgrT
+				}
+				tlsc := &aobj{name: "tls config", typ: tlsT, f: map[string]aval{"Enabled": abool(enabled), "Manual": abool(false), "SelfSigned": abool(false), "ClientAuth": aint(0), "Manager": aptr{mgr, ""}}}
+				tlsc.in = func(o *aobj, path string, t types.Type) aval { return aunk{"tls field " + path} }
+				site := &aobj{name: "site", typ: siteT, f: map[string]aval{"TLS": aptr{tlsc, ""}, "Addr.Port": astr(port), "Addr.Scheme": astr(scheme), "Addr.Host": astr("example.com"), "ListenHost": astr("")}}
+				site.in = func(o *aobj, path string, t types.Type) aval { return aunk{"site field " + path} }
+				ctx := &aobj{name: "context", typ: ctxT, f: map[string]aval{"siteConfigs": aslice{[]*aobj{site}}}}
+				ctx.in = func(o *aobj, path string, t types.Type) aval { return aunk{"context field " + path} }
+				env := &absEnv{noFork: true, maxSteps: 200000, globals: map[string]*aobj{
+					"HTTPPort":  {name: "HTTPPort", typ: types.Typ[types.Int], f: map[string]aval{"": aint(80)}},
+					"HTTPSPort": {name: "HTTPSPort", typ: types.Typ[types.Int], f: map[string]aval{"": aint(443)}},
+					"QUIC":      {name: "QUIC", typ: types.Typ[types.Bool], f: map[string]aval{"": abool(false)}},
+				}}
+				env.ext = func(callee string, args []aval) (aval, bool) {
+					switch {
+					case strings.HasSuffix(callee, "casket.IsLoopback"), strings.HasSuffix(callee, "casket.IsInternal"):
+						return abool(true), true
+					case strings.HasSuffix(callee, "groupSiteConfigsByListenAddr"):
+						var mt *types.Map
+						if g := h.p.Func(hs, "groupSiteConfigsByListenAddr"); g != nil && g.Signature.Results().Len() > 0 {
+							mt, _ = underlying(g.Signature.Results().At(0).Type()).(*types.Map)
+						}
+						return atuple{amap{&amapData{vals: map[string]aval{}, keys: map[string]aval{}, typ: mt}}, anil{}}, true
+					case strings.HasPrefix(callee, "log."), strings.HasPrefix(callee, "fmt."):
+						return atuple{}, true
+					}
+					return nil, false
+				}
+				desc := sprintf("TLS enabled=%v, port %q, scheme %q", enabled, port, scheme)
+				if _, und := env.run(fn, []aval{aptr{ctx, ""}}); und != "" {
+					bad = desc + ": undecided — " + und
+					break
+				}
+				want := enabled && port != "80" && scheme != "http"
+				got, ok := tlsc.f["Enabled"].(abool)
+				if !ok || bool(got) != want {
+					bad = sprintf("%s: afterwards TLS enabled is %s, specification says %v", desc, describeAval(tlsc.f["Enabled"]), want)
+					break
+				}
+				if want && port == "" {
+					if p, _ := site.f["Addr.Port"].(astr); string(p) != "443" {
+						bad = sprintf("%s: the site's port afterwards is %s, specification says the HTTPS port", desc, describeAval(site.f["Addr.Port"]))
+						break
+					}
+				}
+			}
+			if bad != "" {
+				break
+			}
+		}
+		if bad != "" {
+			break
+		}
+	}
+	r.Check(bad == "", "R2", "httpserver.(*httpContext).MakeServers/disable-tls-for-http-sites", fn.Pos(), "TLS is switched off for a site exactly when it sits on the HTTP port or was declared with http://", sprintf("%d cases evaluated", n), bad)
+}
+
+func c15R2Patterns(h H) {
 	r := h.r
 	r.Rule("R2", "plain-HTTP sites lose TLS: in httpContext.MakeServers the store TLS.Enabled = false is guarded by exactly {Enabled was true, Port == HTTP port or Scheme == \"http\"}", 1)
 	fn := h.fn("R2", hs, "(*httpContext).MakeServers")
